@@ -829,14 +829,14 @@ fn val_bits(v: &Value) -> String {
 
 fn norm_ti(t: &TypeInfo, modulo_unused: bool) -> TypeInfo {
     let mut t = t.clone();
-    if modulo_unused && t.kind != TypeInfoKind::StringType {
+    if modulo_unused && !matches!(t.kind, TypeInfoKind::StringType) {
         t.coding = StringCoding::ASCII;
     }
     t
 }
 
 pub fn diff_arg(a: &Argument, b: &Argument, modulo_unused: bool) -> Option<&'static str> {
-    if norm_ti(&a.type_info, modulo_unused) != norm_ti(&b.type_info, modulo_unused) {
+    if format!("{:?}", norm_ti(&a.type_info, modulo_unused)) != format!("{:?}", norm_ti(&b.type_info, modulo_unused)) {
         return Some("type_info");
     }
     if a.name != b.name {
@@ -851,7 +851,7 @@ pub fn diff_arg(a: &Argument, b: &Argument, modulo_unused: bool) -> Option<&'sta
             if x.quantization.to_bits() != y.quantization.to_bits() {
                 return Some("fixed_point.quantization");
             }
-            if x.offset != y.offset {
+            if format!("{:?}", x.offset) != format!("{:?}", y.offset) {
                 return Some("fixed_point.offset");
             }
         }
@@ -884,7 +884,9 @@ pub fn diff_msg(a: &Message, b: &Message, modulo_unused: bool) -> Option<String>
     if h.version != g.version {
         return Some("header.version".into());
     }
-    if h.endianness != g.endianness {
+    // enum fields are compared through the harness' own projections (bit codes / Debug text), not
+    // through the crate's PartialEq implementations
+    if matches!(h.endianness, Endianness::Big) != matches!(g.endianness, Endianness::Big) {
         return Some("header.endianness".into());
     }
     if h.has_extended_header != g.has_extended_header {
@@ -914,7 +916,7 @@ pub fn diff_msg(a: &Message, b: &Message, modulo_unused: bool) -> Option<String>
             if x.argument_count != y.argument_count {
                 return Some("ext.argument_count".into());
             }
-            if x.message_type != y.message_type {
+            if msin_bits(&x.message_type) != msin_bits(&y.message_type) || format!("{:?}", x.message_type) != format!("{:?}", y.message_type) {
                 return Some("ext.message_type".into());
             }
             if x.application_id != y.application_id {
